@@ -795,11 +795,23 @@ def run(ctx):
         "modelled, not verified: fwrite/read/mmap themselves; qsort (a sorted permutation); the priority queue of the replay "
         "(any choice order); byte padding inside structs is masked"]
     report(ctx, failing, diffs, broken, log, gen_ok, gen_log, exe, drv, layout_line, L)
+    ctx.cov["evaluations"] = len(cases)
+    ctx.cov["distinct_nontrivial"] = len(set(c for _, c in cases)) - dist.get("depth:0", 0)
+    ctx.cov["hypotheses_evaluated_on_every_recorded_tree"] = (
+        "wf_root (grammar of C19_wf / C19_shrink_totals) and t1_ok (work-total consistency of C19_shrink_totals) are "
+        "extracted and evaluated on the recorded tree of every case; a false value counts as a disagreement (%d cases, %d false)"
+        % (len(cases), sum(1 for _, _, d in diffs if any("grammar" in w[0] or "t1_ok" in w[0] for w in d))))
     return ctx.finish(assumptions=[
-        "the recorded tree obeys the grammar task ::= (section|other)* end, section ::= (section|create|other)* wait "
-        "(the recorder builds it that way; dr_dump is called after dr_stop) and every create_task node has its child task",
-        "the struct layout satisfies layout_wf (checked on the regenerated layout by vm_compute on every run)",
-        "values fit their C types (dag_fits); no read past the end of the file (the C reader does not check the size)"])
+        "C19_wf / C19_shrink_totals: the recorded tree satisfies wf_root - task ::= (section|other)* end, "
+        "section ::= (section|create|other)* wait, every create_task node has its child task, in_edge_kind of a "
+        "subgraph that follows another one is a continuation kind (the recorder builds it that way; dr_dump is called "
+        "after dr_stop; evaluated on every recorded tree of the run)",
+        "C19_shrink_totals, t_1 part: the work totals of the recorded tree are consistent (t1_ok; this is C18's "
+        "accumulation property, evaluated on every recorded tree of the run)",
+        "C19_roundtrip: the struct layout satisfies layout_wf (evaluated by vm_compute on the layout regenerated from the "
+        "current headers) and the values fit their C types (dag_fits); the file is at least as long as its header "
+        "counts say (the C reader does not check)",
+        "C19_replay: the event queue hands out pending events in any order (the binary heap of chronological.c is one such order)"])
 
 
 def report(ctx, failing, diffs, broken, log, gen_ok, gen_log, exe, drv, layout_line, L):
